@@ -107,7 +107,11 @@ func c23Build() (*Comp, *c23Mem, *c23Mem, messaging.Port, c23Cfg) {
 		Build("DM")
 	wire := &c23Conn{}
 	mk := func(name string) messaging.Port {
-		p := messaging.NewPort(dm, 4, 4, "DM."+name)
+		outCap := 4
+		if name == "Top" {
+			outCap = c23TopOut
+		}
+		p := messaging.NewPort(dm, 4, outCap, "DM."+name)
 		p.SetConnection(wire)
 		dm.AssignPort(name, p)
 		return p
@@ -122,6 +126,9 @@ func c23Build() (*Comp, *c23Mem, *c23Mem, messaging.Port, c23Cfg) {
 	out.init("outside-byte")
 	return dm, in, out, top, cfg
 }
+
+// c23TopOut is the outgoing capacity of the Top port built by c23Build.
+var c23TopOut = 4
 
 // VerifC23_Move: one move request, any sides, sizes and granularities.
 func VerifC23_Move() {
@@ -195,5 +202,54 @@ func VerifC23_Move() {
 	if size%gran(sd[1]) != 0 {
 		verifrt.Cover("size-not-multiple-of-destination-granularity")
 	}
+	verifrt.Cover("end")
+}
+
+// VerifC23_TwoMoves: two move requests, the requester takes acknowledgements
+// away late from a one-entry Top buffer (back-pressure when the second move
+// completes). Each move gets exactly one acknowledgement referencing it.
+func VerifC23_TwoMoves() {
+	c23TopOut = 1
+	dm, in, out, top, cfg := c23Build()
+	c23TopOut = 4
+	ids := []uint64{7001, 7002}
+	hold := 10 * verifrt.Choice("requester-holds-acks-for", 3)
+	size := uint64(1 + verifrt.Choice("size", 2))
+	for i, id := range ids {
+		req := datamoverprotocol.DataMoveRequest{SrcAddress: cfg.inG * uint64(i), DstAddress: 8 + cfg.outG*uint64(i), ByteSize: size,
+			SrcSide: datamoverprotocol.DataMovePort("inside"), DstSide: datamoverprotocol.DataMovePort("outside")}
+		req.ID = id
+		req.Src, req.Dst = "CP.Port", top.AsRemote()
+		top.Deliver(req)
+	}
+	acks := [2]int{}
+	firstSeen := -1
+	for tick := 0; tick < 120; tick++ {
+		progress := dm.Tick()
+		busy := in.serve()
+		busy = out.serve() || busy
+		if top.PeekOutgoing() != nil && firstSeen < 0 {
+			firstSeen = tick
+		}
+		if firstSeen >= 0 && tick >= firstSeen+hold {
+			for top.PeekOutgoing() != nil {
+				rsp, ok := top.RetrieveOutgoing().(datamoverprotocol.DataMoveResponse)
+				verifrt.Assert(ok && rsp.Dst == "CP.Port", "acknowledgement-addressed-to-the-requester")
+				found := false
+				for i, id := range ids {
+					if rsp.RspTo == id {
+						acks[i]++
+						found = true
+					}
+				}
+				verifrt.Assert(found, "acknowledgement-answers-a-request")
+				busy = true
+			}
+		}
+		if !progress && !busy && top.PeekOutgoing() == nil && tick > firstSeen+hold && firstSeen >= 0 {
+			break
+		}
+	}
+	verifrt.Assert(acks[0] == 1 && acks[1] == 1, "each-move-acknowledged-exactly-once")
 	verifrt.Cover("end")
 }
